@@ -167,6 +167,11 @@ pub fn one_case(c: &Value) -> Vec<Value> {
             d.push(0x5a);
             push("mut", d, false, 100, 60)
         }
+        "runt" => {
+            for (label, d) in crate::c03::runts(&g1, hl) {
+                push(&label, d, false, 100, 60);
+            }
+        }
         "transplantHeader" => {
             let mut d = g2[..hl].to_vec();
             d.extend_from_slice(&g1[hl..]);
@@ -211,7 +216,7 @@ pub fn one_case(c: &Value) -> Vec<Value> {
                     s.sessions.group_ctrs.iter().map(|g| (g.fab_idx, g.src_nodeid, g.max_ctr, g.bitmap)).collect::<Vec<_>>())
         })
     };
-    drive(all.as_mut(), &net, &Limits { max_virtual_ms: 600_000, ..Default::default() }, |net| {
+    let end = drive(all.as_mut(), &net, &Limits { max_virtual_ms: 600_000, ..Default::default() }, |net| {
         net.borrow_mut().wire.clear();
         if settle_ms > 0 {
             let s = settle_ms;
@@ -232,6 +237,7 @@ pub fn one_case(c: &Value) -> Vec<Value> {
         }
         match todo.pop() {
             Some((label, bytes, auth, from, settle)) => {
+                crate::util::beat(&format!("{}:{}", crate::c03::CASE.with(|x| x.get()), label));
                 current = Some((label, auth, from, got.borrow().len(), snap_all(&b)));
                 settle_ms = settle;
                 Step::Inject { src: 0, dst: 1, data: bytes }
@@ -239,5 +245,11 @@ pub fn one_case(c: &Value) -> Vec<Value> {
             None => Step::Stop,
         }
     });
+    if let (crate::world::End::Storm, Some((label, authentic, from, got_before, before))) = (&end, current.take()) {
+        // the stack polls itself for ever after this injection: report what is observable and stop
+        let delivered = got.borrow().len() > got_before;
+        events.push(json!({"ev": "Inject", "label": label, "authentic": authentic, "delivered": delivered, "from": from, "delivered_what": [],
+                           "from_ok": true, "intact": true, "silent": before == snap_all(&b), "storm": true}));
+    }
     events
 }
